@@ -174,7 +174,7 @@ class OwnProfile(Profile):
         c["p_explicit_uuid"] = r.choice([0.6, 0.85, 1.0])
         c["p_ctor_parent"] = r.choice([0.2, 0.5, 0.8])
         c["p_ctor_kids"] = r.choice([0.1, 0.25, 0.5])
-        c["p_raising_iter"] = r.choice([0.0, 0.1, 0.25])
+        c["p_raising_iter"] = r.choice([0.0, 0.15, 0.3])
         c["p_addr_none"] = r.choice([0.1, 0.3])
         c["contents"] = True
         return c
@@ -183,6 +183,13 @@ class OwnProfile(Profile):
         r = w.rs.ops
         while w.queue:
             op = w.queue.pop(0)
+            if op.get("op") == "heal_then":
+                from . import gen_persist
+
+                then = op["then"]
+                hs = gen_persist.heal_ops(w, then["ir"]) if then["ir"] in w.m.nodes else []
+                w.queue[0:0] = hs + [then]
+                continue
             if self._ready(w, op):
                 return op
         fam = self.choose_family(w, r, w.cfg["weights"])
@@ -275,6 +282,13 @@ class OwnProfile(Profile):
             x = r.random()
             if x < 0.5:
                 op = gen_persist.gen_save(w, r)
+                if op is not None and r.random() < w.cfg.get("p_enrich", 0.0):
+                    # give the IR references of every kind first (entry points, referents,
+                    # expressions, edges), then heal and save - all through the public API
+                    ex = gen_persist.enrich_ops(w, r, op["ir"])
+                    if ex:
+                        w.queue.extend(ex[1:] + [{"op": "heal_then", "then": op}])
+                        return ex[0]
                 if op is not None and r.random() < w.cfg.get("p_heal", 0.7):
                     hs = gen_persist.heal_ops(w, op["ir"])
                     if hs:
@@ -308,6 +322,7 @@ class C03(OwnProfile):
     runs_quick = 8000
     runs_thorough = 240000
     prop = "C03"
+    resync_on_divergence = True
     rule = (
         "one evaluation = one seeded ownership history (30-100 public mutations over up to 3 IRs, "
         "from both ends of the 6 containment relations); after every step every IR's get_by_uuid is "
@@ -433,6 +448,7 @@ INDEX_ATTRS = ("offset", "size", "address")
 
 class IndexProfile(OwnProfile):
     name = "index"
+    resync_on_divergence = True
     base = INDEX_BASE
     lookup_props = ("C05", "C06", "C13")
     keep = ("new", "attr_index")
@@ -572,6 +588,7 @@ class C10(OwnProfile):
     runs_quick = 12000
     runs_thorough = 360000
     prop = "C10"
+    resync_on_divergence = True
     name = "sym"
     base = {"new": 4.0, "setparent": 4.0, "setop": 3.0, "attr_sym": 7.0, "listop": 0.7, "setattr": 0.5, "persist": 0.5}
     keep = ("new", "attr_sym")
@@ -733,6 +750,7 @@ class PersistProfile(OwnProfile):
         c["boot"] = r.choice([8, 15, 25, 35])
         c["weights"] = swarm_weights(r, self.base, keep=self.keep, off_p=0.2)
         c["p_heal"] = r.choice([0.5, 0.8, 1.0])
+        c["p_enrich"] = r.choice([0.0, 0.3, 0.6])
         c["p_boundary"] = r.choice([0.05, 0.15, 0.3])
         c["aux_depth"] = r.choice([1, 2, 3, 4])
         c["prefer_local_refs"] = True
@@ -864,6 +882,7 @@ class AuxProfile(PersistProfile):
         c["boot"] = r.choice([4, 8, 12])
         c["kind_weights"] = {"ir": 0.8, "mod": 1.5, "sec": 0.6, "bi": 0.6, "cb": 0.8, "db": 0.5, "px": 0.5, "sym": 0.8}
         c["aux_depth"] = r.choice([1, 2, 3, 4])
+        c["p_bad_aux"] = r.choice([0.0, 0.1, 0.25])
         return c
 
     def nontrivial(self, w):
